@@ -11,9 +11,10 @@ RULE = ("for fixed (N,K) the multinomial family is complete, so E_p[f(n)] = G(p)
         "for every count vector n; every composition n of N into K parts (zeros included) is enumerated, the polynomial coefficients are "
         "obtained by explicit polynomial multiplication in exact rationals, and pc_n / pc / varpc_n / stdpc_n / stdpc are evaluated on n "
         "(exactly on Fraction object arrays, and on integer arrays to 1e-12); non-trivial = count vector with at least one n_i >= 2")
-ASSUMPTIONS = ["identity in p decided for the enumerated (N,K) only; larger N,K not covered",
+ASSUMPTIONS = ["large counts are given in NumPy's default integer dtype (int64), as lists or as float64; narrower integer dtypes (int32/uint32) wrap in NumPy arithmetic by design and are outside the bound",
+               "identity in p decided for the enumerated (N,K) only; larger N,K not covered",
                "float results on integer arrays are compared with the exact rational value to 1e-12 (relative and absolute)"]
-REQUIRED_CLASSES = {"all": ["count-vector-with-zero", "variance-checked", "two-sample", "negative-variance-estimate", "exact-fraction-path"]}
+REQUIRED_CLASSES = {"all": ["count-vector-with-zero", "variance-checked", "two-sample", "negative-variance-estimate", "exact-fraction-path", "large-counts"]}
 MIN_OUTCOMES = 8
 
 
@@ -67,7 +68,15 @@ def spaces(tier):
                         continue
                     yield ("NK2", N1, N2, K)
 
+    def gen_mag():
+        big = (255, 256, 55108, 55109, 65535, 65536, 2 ** 21 - 1, 2 ** 21 + 3, 3000000, 2 ** 31 - 1)
+        for b in big:
+            for rest in ((1,), (3, 2), (b,), (b - 1, 7), (1000, 40, 3)):
+                if b + sum(rest) <= 2 ** 31:       # stated bound: total sample size up to 2^31 (N(N-1) itself leaves int64 at 3.04e9)
+                    yield ("mag", (b,) + rest)
+
     return [
+        Space("magnitude-boundary-family", gen_mag, "count vectors with an entry at 2^8, 55108/55109 (cube root / square root thresholds of int64), 2^16, 2^21, 3e6, 2^31-1 combined with 5 small/large companions (total sample size <= 2^31): integer-array path against the exact Fraction path of the same functions"),
         Space("one-sample-all-count-vectors", gen_one, "every composition of N into K parts: K<=4, N=2..10 (quick); K<=5, N<=16 (K=5: N<=12) (thorough)", per_case=True),
         Space("two-sample-all-count-vector-pairs", gen_two, "every pair of compositions: N1,N2<=6, K<=3 (quick); <=8, K<=4 (thorough)", per_case=True),
     ]
@@ -86,6 +95,8 @@ def check_case(case, acc):
         n = case[1]
         M, g2, g4, lin = polys(sum(n), len(n))
         _check_vector(acc, n, M, g2, g4)
+    elif kind == "mag":
+        _check_magnitude(acc, case[1])
     elif kind == "NK2":
         _, N1, N2, K = case
         M1, _, _, lin1 = polys(N1, K) if N1 >= 2 else (_M(N1, K), None, None, _lin(N1, K))
@@ -100,6 +111,44 @@ def check_case(case, acc):
         _check_pair(acc, n1, n2, _M(N1, K), _M(N2, K), _lin(N1, K), _lin(N2, K))
     else:
         raise HarnessError("unknown case %r" % (case,))
+
+
+def _check_magnitude(acc, n):
+    """large counts: the polynomial identity cannot be expanded, but the implementation run on exact Fractions is the same
+    formula without rounding or overflow (validated against the identity on every small vector), so the integer path must agree"""
+    import numpy as np
+    import pyrepseq
+    acc.cls("large-counts")
+    case = ("mag", n)
+    fr = np.array([Fraction(x) for x in n], dtype=object)
+    exact_pc = ref_pc_counts(n)
+    if acc.call(pyrepseq.pc_n, fr) != exact_pc:
+        acc.fail("pc_n/large-counts-exact-path", case, exact_pc, "differs")
+        return
+    for arr, tag in ((np.array(n, dtype=np.int64), "int64"), (list(n), "list"), (np.array(n, dtype=float), "float64")):
+        r = acc.call(pyrepseq.pc_n, arr)
+        if raised(r) or not feq(r, float(exact_pc), rel=1e-12):
+            acc.fail("pc_n/large-counts", case, exact_pc, r, note=tag)
+            return
+        acc.ok()
+    if sum(n) < 4:
+        return
+    exact_var = acc.call(pyrepseq.varpc_n, fr)
+    if raised(exact_var):
+        acc.fail("varpc_n/large-counts-exact-path", case, "a value", exact_var)
+        return
+    for arr, tag in ((np.array(n, dtype=np.int64), "int64"), (np.array(n, dtype=float), "float64")):
+        r = acc.call(pyrepseq.varpc_n, arr)
+        # the variance is a difference of terms of size ~pc^2 <= 1: absolute tolerance 1e-12
+        if raised(r) or not feq(r, float(exact_var), rel=1e-9, abs_=1e-12):
+            acc.fail("varpc_n/large-counts", case, float(exact_var), r, note=tag)
+            return
+        s = acc.call(pyrepseq.stdpc_n, arr)
+        root = math.sqrt(float(r)) if float(r) >= 0 else float("nan")
+        if raised(s) or not feq(s, root, rel=1e-12, abs_=0.0):
+            acc.fail("stdpc_n/large-counts", case, root, s, note=tag)
+            return
+        acc.ok(("mag", tag, float(exact_var)), nontrivial=True)
 
 
 def _M(N, K):
@@ -194,3 +243,10 @@ def _check_pair(acc, n1, n2, M1, M2, lin1, lin2):
         acc.fail("pc/two-sample-biased", ("vec2", n1, n2), target, r)
     else:
         acc.ok(("pc2", float(target)), nontrivial=target > 0)
+    # the same draw with string labels of different widths, one a prefix of another
+    lab = ("x1", "x10", "x2", "x", "x100")
+    r = acc.call(pyrepseq.pc, np.array([lab[i] for i in a]), np.array([lab[i] for i in b]))
+    if raised(r) or float(r) != float(target):
+        acc.fail("pc/two-sample-biased/variable-width-labels", ("vec2", n1, n2), target, r)
+    else:
+        acc.ok()
